@@ -579,6 +579,13 @@ pub fn main(tier: Tier) -> i32 {
                     v.cdelay = cd;
                     v.funding_alt = alt;
                     setups.push(v.clone());
+                    // set up by the SetupChannel message through the channel handler (the two
+                    // delay pairs inside the range, so that a swapped pair shows)
+                    if !alt && hd < 100 && cd < 100 {
+                        let mut vw = v.clone();
+                        vw.wire = true;
+                        setups.push(vw);
+                    }
                     // the base delays also under the chain-aware validator
                     if hd == 6 && !alt {
                         v.onchain = true;
